@@ -91,7 +91,8 @@ def report(ctx, findings, source):
                      ((": " + out.get("msg", "")[:80]) if out.get("msg") else "")))
             case = {"family": "trunc", "at": ln["at"]}
             if fl.get("opaque"):
-                case["path"] = fl.get("path", fl.get("name"))
+                case["path"] = fl.get("name")
+                case["seed"] = ctx.seed
             else:
                 case["file"] = fl["f"]
             ctx.violation(sig, what, case)
@@ -106,6 +107,13 @@ def run_cases(ctx, vh, name, cases, maxcuts=0):
                      "-maxcuts", str(maxcuts), "-seed", str(ctx.seed)], timeout=3000)
     with open(tp) as f:
         return f.readlines()
+
+
+def cleanup(ctx, name):
+    import shutil
+    shutil.rmtree(os.path.join(ctx.work, name), ignore_errors=True)
+    for i in range(32):
+        shutil.rmtree(os.path.join(ctx.work, "%s-shard%02d" % (name, i)), ignore_errors=True)
 
 
 def account(ctx, raw):
@@ -174,26 +182,35 @@ def run(ctx):
     report(ctx, findings, "TLC-generated files")
     ctx.sample({"file": {k: cases[0][k] for k in ("fmt", "enc", "cols", "rows", "faces")}, "cuts": "all"})
 
-    # seeded larger files of the same abstract form, every cut point
-    d = ctx.scratch("rnd")
-    rp = os.path.join(d, "r.ndjson")
-    core.run_vh(vh, ["trunc-random", "-out", rp, "-seed", str(ctx.seed), "-n", str(14 if quick else 140),
-                     "-maxv", str(6 if quick else 24)])
-    rnd = core.read_ndjson(rp)
-    ctx.extra["random_files"] = len(rnd)
-    raw = run_cases(ctx, vh, "rnd", rnd, maxcuts=0 if quick else 1500)
-    account(ctx, raw)
-    report(ctx, judge(ctx, "rnd", raw), "seeded files")
+    # seeded larger files of the same abstract form (every cut point in the quick tier, a large sample of the
+    # cut points of each file in the thorough tier), in rounds to bound the trace size
+    ctx.extra["random_files"] = 0
+    for rd in range(1 if quick else 10):
+        d = ctx.scratch("rnd%d" % rd)
+        rp = os.path.join(d, "r.ndjson")
+        core.run_vh(vh, ["trunc-random", "-out", rp, "-seed", str(ctx.seed * 1000 + rd), "-n", str(14 if quick else 210),
+                         "-maxv", str(6 if quick else 30)])
+        rnd = core.read_ndjson(rp)
+        for c in rnd:
+            c["id"] += rd * 100000
+        ctx.extra["random_files"] += len(rnd)
+        raw = run_cases(ctx, vh, "rnd%d" % rd, rnd, maxcuts=0 if quick else 1200)
+        account(ctx, raw)
+        report(ctx, judge(ctx, "rnd%d" % rd, raw), "seeded files, round %d" % rd)
+        if not quick:
+            cleanup(ctx, "rnd%d" % rd)
 
     if not quick:
         # real files: the repository's test models and the output of polyform's own writers
         d = ctx.scratch("real")
-        p = core.run_vh(vh, ["trunc-write", "-dir", d, "-seed", str(ctx.seed), "-nv", "30"])
-        paths = [x for x in p.stdout.split() if x]
+        paths = []
+        for k, nv in enumerate(WRITER_NV):
+            p = core.run_vh(vh, ["trunc-write", "-dir", d, "-seed", str(ctx.seed + k), "-nv", str(nv)])
+            paths += [x for x in p.stdout.split() if x]
         tm = os.path.join(core.REPO, "test-models")
         paths += [os.path.join(tm, x) for x in sorted(os.listdir(tm)) if x.endswith((".ply", ".pts", ".stl", ".spz", ".splat"))]
         tp = os.path.join(d, "trace.ndjson")
-        core.run_vh(vh, ["trunc-files", "-out", tp, "-j", str(min(core.NCPU, 12)), "-maxcuts", "250",
+        core.run_vh(vh, ["trunc-files", "-out", tp, "-j", str(min(core.NCPU, 12)), "-maxcuts", "700",
                          "-seed", str(ctx.seed)] + paths, timeout=3000)
         raw = open(tp).readlines()
         account(ctx, raw)
@@ -201,6 +218,12 @@ def run(ctx):
         report(ctx, judge(ctx, "real", raw), "real files")
         selftest(ctx, vh, cases)
 
+    # vacuity guards: every format was cut, every kind of allowed outcome was actually observed and judged
+    need = ["ply-ascii", "ply-le", "ply-be", "stl", "pts", "splat", "spz-stored", "spz-deflate"]
+    missing = [t for t in need if ctx.extra["cuts_per_format"].get(t, 0) == 0]
+    if missing or not ctx.extra.get("mesh_outcomes_judged") or not ctx.extra.get("partial_with_error_judged") \
+            or not ctx.extra["outcomes"].get("error"):
+        raise core.Infra("vacuous run: formats without cuts %s, outcomes %s" % (missing, ctx.extra["outcomes"]))
     ctx.nontrivial = ctx.evaluations
     ctx.rule = ("a case is (valid file, cut position): files are all small abstract files enumerated by TLC "
                 "(TruncGen), seeded larger ones and (thorough) real files; every byte offset for binary / gzip "
@@ -249,6 +272,9 @@ def selftest(ctx, vh, cases):
         raise core.Infra("binding self-test failed: %d corruptions injected, %d rejected by TraceTrunc" % (done, got))
 
 
+WRITER_NV = (30, 75)
+
+
 def replay(ctx, path):
     with open(path) as f:
         obj = json.load(f)
@@ -256,19 +282,25 @@ def replay(ctx, path):
     vh = core.build_vh()
     d = ctx.scratch("replay")
     if "file" in case:
-        raw = run_cases(ctx, vh, "replay", [case["file"]])
-    else:
-        p = case["path"]
-        if not os.path.exists(p):
-            p = os.path.join(core.REPO, "test-models", os.path.basename(p))
+        cp = os.path.join(d, "cases.ndjson")
+        core.write_ndjson(cp, [case["file"]])
         tp = os.path.join(d, "trace.ndjson")
-        core.run_vh(vh, ["trunc-files", "-out", tp, "-maxcuts", "250", "-seed", str(ctx.seed), p])
-        raw = open(tp).readlines()
+        core.run_vh(vh, ["trunc-exec", "-in", cp, "-out", tp, "-only", str(case["at"])])
+    else:
+        name = os.path.basename(case["path"])
+        p = os.path.join(core.REPO, "test-models", name)
+        if name.startswith("w"):       # output of polyform's own writers: regenerate with the recorded seed
+            nv = int(name[1:name.index("-")])
+            core.run_vh(vh, ["trunc-write", "-dir", d, "-seed", str(case.get("seed", 1) + WRITER_NV.index(nv)), "-nv", str(nv)])
+            p = os.path.join(d, name)
+        tp = os.path.join(d, "trace.ndjson")
+        core.run_vh(vh, ["trunc-files", "-out", tp, "-only", str(case["at"]), p])
+    raw = open(tp).readlines()
     account(ctx, raw)
     for fl, ln, bad, x in judge(ctx, "replay", raw):
         if ln.get("k") == "cut" and ln["at"] == case["at"]:
             print("replay: %s at cut %d: %s" % (",".join(bad), ln["at"], ln["out"]["kind"]))
-            report(ctx, [(fl, ln, bad, x)], "replay")
+        report(ctx, [(fl, ln, bad, x)], "replay")
     ctx.rule = "replay of one recorded (file, cut)"
     ctx.nontrivial = 1
     ctx.sample({"replayed": path})
